@@ -212,9 +212,6 @@ theorem picture_iff {α} {pos : α → Int × Int} {R C : Nat} {g : IGrid} {es :
     Picture pos R C g es ↔ Shown pos R C g es ∧ Backed pos R C g es :=
   ⟨shown_backed_of_picture, fun h => picture_of_shown_backed h.1 h.2⟩
 
-/-- positions of the two kinds of entity -/
-def apos (a : Agent) : Int × Int := (a.x, a.y)
-def spos (a : Shelf) : Int × Int := (a.x, a.y)
 
 /-- `shelfAt` finds a shelf iff some shelf stands on the cell -/
 theorem shelfAt_isSome {shelves : List Shelf} {c : Int × Int} :
